@@ -379,6 +379,11 @@ func renameInboxPerUser(db *sql.DB, userID int64, newName string) error {
 		return err
 	}
 
+	// Create intermediate hierarchies if needed, like every other RENAME
+	if err := createParentMailboxesPerUser(db, userID, newName); err != nil {
+		return err
+	}
+
 	// Create new mailbox
 	newMailboxID, err := CreateMailboxPerUser(db, userID, newName, "")
 	if err != nil {
